@@ -316,7 +316,7 @@ type glayout struct {
 	minParens bool // binary operands carry only the parentheses the operator table requires
 }
 
-var gOpRank = map[string]int{"&&": 2, "||": 2, "<": 2, ">": 2, "<=": 2, ">=": 2, "=": 3, "<>": 3, "+": 4, "-": 4, "*": 5}
+var gOpRank = map[string]int{"&&": 2, "||": 2, "<": 2, ">": 2, "<=": 2, ">=": 2, "=": 3, "<>": 3, "+": 4, "-": 4, "*": 5, "/": 5}
 
 func (l *glayout) indentDelta() int {
 	if l.plain {
@@ -907,6 +907,17 @@ func (g *ggen) inline(env genv, t *gty, d int) *gnode {
 			op := []string{"+", "-", "*"}[g.r.Intn(3)]
 			if (gTiny || g.noMul) && op == "*" {
 				op = "-"
+			}
+			if !gTiny && g.r.Intn(6) == 0 {
+				// integer division by a positive literal (Go truncates toward zero; no division by zero)
+				g.hit("division")
+				return &gnode{op: "bin", s: "/", kids: []*gnode{g.inline(env, tInt, d-1), {op: "int", n: 1 + g.r.Intn(4), t: tInt}}, t: t}
+			}
+			if !gTiny && op == "*" && g.r.Intn(2) == 0 {
+				// a / k * b: division and multiplication share one rank and associate to the left
+				g.hit("division")
+				l := &gnode{op: "bin", s: "/", kids: []*gnode{g.inline(env, tInt, d-1), {op: "int", n: 1 + g.r.Intn(4), t: tInt}}, t: t}
+				return &gnode{op: "bin", s: "*", kids: []*gnode{l, g.inline(env, tInt, d-1)}, t: t}
 			}
 			return &gnode{op: "bin", s: op, kids: []*gnode{g.inline(env, tInt, d-1), g.inline(env, tInt, d-1)}, t: t}
 		case 2:
